@@ -93,7 +93,7 @@ def c10_cases(tier, seed):
     for _ in range(n):
         cfg = cfg_tok(rng)
         kind = rng.choice(["save", "append_new", "append_existing", "append_existing", "cycles", "append_twice", "append_empty_file",
-                           "append_noload"])
+                           "append_noload", "append_removed"])
         alpha = rng.choice([ALPHA10, SMALL])
         mk = lambda: enc(rand_entry(rng, alpha, rng.choice([4, 8, 40])))
         ops = ["new 0 " + cfg] + ["add 0 " + mk() for _ in range(rng.randint(0, 6))]
@@ -125,6 +125,16 @@ def c10_cases(tier, seed):
             ops += ["add 1 " + mk() for _ in range(rng.randint(1, 3))]
             ops += ["append 1", "new 9 " + cfg, "load 9"]
             w = None
+        elif kind == "append_removed":
+            # the file a session loaded has gone (or another path is appended to) when it appends: the WHOLE history in memory
+            # is written, loaded and new entries alike
+            ops += ["save 0", "new 1 " + cfg, "load 1"]
+            ops += ["add 1 " + mk() for _ in range(rng.randint(0, 2))] + ["add 1 " + enc([0x7a, 0x31])]
+            if rng.random() < 0.3:
+                ops += ["append 1"] + ["add 1 " + mk() for _ in range(rng.randint(0, 2))] + ["add 1 " + enc([0x7a, 0x32])]
+            # (the last line added is one every policy accepts: an append with nothing new writes nothing)
+            ops += ["rm", "append 1", "new 9 " + cfg, "load 9"]
+            w = len(ops) - 3
         elif kind == "append_empty_file":
             # the file exists but is empty (or holds only blank lines) when the session loads it
             ops = ["put " + rng.choice(["-", "-", "a", "a.a"]), "new 0 " + cfg, "load 0"]
@@ -208,7 +218,7 @@ def c10_corr(res, exe, driver, tier, seed, tmp):
     res.rule = ("fhist stream: (1) every list of <=2 entries of <=2 chars over {LF,CR,\\,n,r,#,blank,e-acute,a} saved and "
                 "reloaded (quick: every 7th pair, offset by seed; thorough: all); (2) random scenarios "
                 "save / append-to-new / append-to-existing / several appends by one session / append after loading an empty file / "
-                "append by a session holding only new lines (never loaded, or cleared) / "
+                "append by a session holding only new lines (never loaded, or cleared) / append after the file has been removed / "
                 "repeated cycles with random settings over a 12-letter alphabet "
                 "incl. 3- and 4-byte characters; (3) random legacy files with LF/CRLF/unterminated last line. "
                 "Non-trivial = contains LF, CR, backslash or a multi-byte character; distinct by case text. "
@@ -492,6 +502,21 @@ def c11_cases(tier, seed):
                 ops.append("save %d" % i)
         ops += ["new 8 100 0 0", "load 8"]
         cases.append((" ; ".join(ops), {"max": mx, "igs": igs, "igd": igd}))
+    # the existing file holds lines the loading sessions will NOT keep (consecutive duplicates, blank-led lines: written under
+    # another policy): what a session knows about the file's size is then not the number of its lines
+    for k in range(max(6, n // 60)):
+        mx = rng.choice([3, 4, 5])
+        igs = k % 2
+        cfg = "%d %d 1" % (mx, igs)
+        # (consecutive duplicates only: the statement allows an append to drop those, not other lines)
+        lines = [[0x61], [0x61], [0x62]] if k % 3 == 0 else [[0x78], [0x61], [0x61]] if k % 3 == 1 else [[0x62], [0x62], [0x62], [0x63]][:mx]
+        data = [0x23, 0x56, 0x32, 0x0a] + [c for l in lines for c in l + [0x0a]]
+        ops = ["put " + ".".join("%x" % c for c in data), "new 0 " + cfg, "load 0"]
+        ops += ["add 0 " + enc([0x67, 0x30 + j]) for j in range(rng.randint(1, 2))] + ["append 0"]
+        if k % 2:
+            ops += ["new 1 " + cfg, "load 1", "add 1 " + enc([0x68]), "append 1", "add 0 " + enc([0x69]), "append 0"]
+        ops += ["new 8 100 0 0", "load 8"]
+        cases.append((" ; ".join(ops), {"max": mx, "igs": igs, "igd": 1}))
     # a session whose only pending line repeats the last line ANOTHER session has written meanwhile (the merge drops it), then
     # more writes by others, then the first session appends again -- with nothing new, or after another line
     for k in range(max(6, n // 60)):
